@@ -166,6 +166,24 @@ pub fn run_c12(rep: &Report) -> i32 {
                             *local.entry("solve_calls".into()).or_insert(0) += 1;
                             match decode_caught(&pc.chalk, &alpha[k].peeled, r) {
                                 Caught::Ok(a) => {
+                                    // state invariant: once a later solve has returned, nothing of the unwound
+                                    // solve may be left on the recursive solver's stack or in its search graph
+                                    // (leftovers shrink the overflow budget of every later solve for good)
+                                    if let Some((stack, graph)) = solver.rec_residue() {
+                                        if stack != 0 || graph != 0 {
+                                            rep.violation(Violation {
+                                                property: "C12".into(),
+                                                kind: "solver-state-not-restored-after-panic".into(),
+                                                site: format!("recursive/residue-stack-{}-graph-{}", (stack != 0) as u8, (graph != 0) as u8),
+                                                what: format!(
+                                                    "{}: after a callback panic at db call {}/{} ({}) while solving `{}` and a later successful solve of `{}`, the solver keeps stack depth {} and {} search-graph nodes",
+                                                    cfg.name(), n, n_calls, log[n - 1], g.text, alpha[k].text, stack, graph
+                                                ),
+                                                input: input(),
+                                            });
+                                            break;
+                                        }
+                                    }
                                     if &a != want {
                                         // is the panic needed at all? the same goals in the same order on a solver
                                         // that never saw a panic: if the answer deviates there too, this is the
